@@ -316,9 +316,10 @@ def srcRow (m : Src) (s a : Nat) : List XRat := rowOf m.T s a m.S
 def copyDense (m : Src) : Option St :=
   if (discGuard .dense).eval m.disc then none
   else if (List.range m.A).all (fun a => (List.range m.S).all (fun s => isProbLoop (srcRow m s a))) then
+    let T' := mk3 m.A m.S m.S (fun a s s1 => get3 m.T s a s1)      -- built once, shared by the reward loop
     some { S := m.S, A := m.A, O := 0, disc := m.disc,
-           T := mk3 m.A m.S m.S (fun a s s1 => get3 m.T s a s1),
-           R := mk2 m.S m.A (fun s a => expReward m.S m.R (mk3 m.A m.S m.S (fun a s s1 => get3 m.T s a s1)) s a),
+           T := T',
+           R := mk2 m.S m.A (fun s a => expReward m.S m.R T' s a),
            Om := [] }
   else none
 
@@ -545,4 +546,35 @@ namespace AITB.MS
 def argmaxBelief (b : List Rat) : Nat :=
   (List.range b.length).foldl (fun m s =>
     if diffSmall (.fin 0) (.fin (b.getD s 0)) && decide (b.getD s 0 > b.getD m 0) then s else m) 0
+end AITB.MS
+
+namespace AITB.MS
+/-- a library model object seen through the generic interface (what a converting constructor reads from it):
+    getTransitionProbability(s,a,s1) = T[a](s,s1), getExpectedReward(s,a,s1) = R(s,a) -/
+def srcOf (s : St) : Src :=
+  { S := s.S, A := s.A, disc := s.disc,
+    T := mk3 s.S s.A s.S (fun x a x1 => get3 s.T a x x1),
+    R := mk3 s.S s.A s.S (fun x a _ => get2 s.R x a) }
+end AITB.MS
+
+/-! ## learned / factored models derived by the library: the discount cell (rows are C07's model, AITB.Model.Experience) -/
+namespace AITB.MS
+open AITB.Guard
+
+/-- the guard of a learned-model class's own `setDiscount` (read from the generated table) -/
+def learnedGuard (file : String) : GExpr := guardOf file "setDiscount"
+
+/-- constructor: `setDiscount(discount)` first (when the source does so); a throw means no object -/
+def lmCtor (ctorChecks : Bool) (g : GExpr) (d : XRat) : Option XRat :=
+  if ctorChecks && g.eval d then none else some d
+
+/-- `setDiscount(d)` on an object whose discount is `cur`: (new discount, threw) -/
+def lmSetDiscount (validateFirst : Bool) (g : GExpr) (cur d : XRat) : XRat × Bool :=
+  if validateFirst then (if g.eval d then (cur, true) else (d, false)) else (d, g.eval d)
+
+/-- a history of setDiscount calls -/
+def lmRun (validateFirst : Bool) (g : GExpr) (cur : XRat) : List XRat → XRat
+  | [] => cur
+  | d :: r => lmRun validateFirst g (lmSetDiscount validateFirst g cur d).1 r
+
 end AITB.MS
